@@ -81,9 +81,20 @@ pub fn check_size(id: u8, w: u32, h: u32, all_pixels: bool, lengths: bool) -> (u
                 out.push(("pixel-bit-position", "readback".into(), format!("({},{}) on {}x{} reads false after being set", x, y, w, h)));
                 break;
             }
+            // asking for the state the pixel already has must change nothing (assign, not toggle)
+            p.set_pixel(x, y, true);
+            if p.as_bytes()[idx] != bit {
+                out.push(("pixel-bit-position", "set-twice".into(), format!("setting ({},{}) on {}x{} a second time changed byte {} to {:02X}", x, y, w, h, idx, p.as_bytes()[idx])));
+                break;
+            }
             p.set_pixel(x, y, false);
             if p.as_bytes() != &want[..] {
                 out.push(("pixel-bit-position", "clear".into(), format!("clearing ({},{}) on {}x{} does not restore the blank page", x, y, w, h)));
+                break;
+            }
+            p.set_pixel(x, y, false);
+            if p.as_bytes() != &want[..] {
+                out.push(("pixel-bit-position", "clear-twice".into(), format!("clearing ({},{}) on {}x{} a second time changed the page", x, y, w, h)));
                 break;
             }
         }
